@@ -374,3 +374,4 @@ c('NaiveTime::Add_Duration__add', U, requires="twf(self)", ensures="twf(r), (r.s
 c('NaiveTime::Sub_Duration__sub', U, requires="twf(self)", ensures="twf(r), (r.secs as int, r.frac as int) == add_time(self, -%s)" % DURNS)
 c('NaiveTime::Add_FixedOffset__add', U, requires="twf(self), offwf(rhs)", ensures="twf(r), r.frac == self.frac, r.secs as int == (self.secs as int + rhs.local_minus_utc as int) % 86400")
 c('NaiveTime::Sub_FixedOffset__sub', U, requires="twf(self), offwf(rhs)", ensures="twf(r), r.frac == self.frac, r.secs as int == (self.secs as int - rhs.local_minus_utc as int) % 86400")
+c('TimeZoneRef::unix_leap_time_to_unix_time', 'verus:tz', ensures="true")   # safety only: no overflow, no out-of-bounds index
